@@ -176,11 +176,13 @@ fn run_scenario(sc: &Value, t: &mut Tracer) {
 					.chunks(2)
 					.map(|c| {
 						let v = c[0] as f64 * SCALE;
-						if v.fract() == 0.0 && c[0] == c[1] { v as i64 } else { -999_999 }
+						if v.is_finite() && c[0] == c[1] { v.round() as i64 } else { -999_999 }
 					})
 					.collect();
+				// frames (1-based) whose value is not a whole number of units: never an exact match
+				let fr: Vec<usize> = res.out.chunks(2).enumerate().filter(|(_, c)| (c[0] as f64 * SCALE).fract() != 0.0).map(|(i, _)| i + 1).collect();
 				let asks: Value = probes.iter().map(|(k, p)| (k.to_string(), json!(p.asks.lock().unwrap().clone()))).collect::<serde_json::Map<_, _>>().into();
-				t.ev(json!({"a": "cb", "n": n, "b": b, "out": out, "asks": asks, "n0": n0,
+				t.ev(json!({"a": "cb", "n": n, "b": b, "out": out, "fr": fr, "asks": asks, "n0": n0,
 					"panicked": res.panicked.is_some(), "m": res.monitor(2)}));
 				if res.panicked.is_some() {
 					break;
